@@ -84,14 +84,25 @@ Theorem C16_date_calendar : forall d, day_lo <= d < day_lo + day_count ->
 Proof. exact civil_roundtrip. Qed.
 Print Assumptions C16_date_calendar.
 
+(* the form other implementations send (RFC 7231 IMF-fixdate, "Sun, 06 Nov 1994 08:49:37 GMT"): read to its second, for
+   every second of the range, so that the header writes the canonical text of the same second; date_read = what
+   Header::Date::parse does with either form *)
+Theorem C16_date_imf_read : forall s, date_lo <= s <= date_hi ->
+  date_read (imf_write s) = Some s /\ date_read (date_write s) = Some s.
+Proof.
+  intros s Hs. destruct (date_read_both s Hs) as [H1 H2]. split; [exact (H2 (imf_not_canonical s Hs))|exact H1].
+Qed.
+Print Assumptions C16_date_imf_read.
+
 (* non-vacuity and the text itself: RFC 7231's example instant, the two ends of the range, a leap day *)
 Example C16_ex_date :
   map (fun s => (date_write s, date_parse (date_write s))) [784111777; date_lo; date_hi; 951782400]
   = [(list_of_string "Sun, 06 Nov 1994 08:49:37.000000000 UTC", Some 784111777);
      (list_of_string "Sat, 01 Jan 1678 00:00:00.000000000 UTC", Some date_lo);
      (list_of_string "Tue, 31 Dec 2261 23:59:59.000000000 UTC", Some date_hi);
-     (list_of_string "Tue, 29 Feb 2000 00:00:00.000000000 UTC", Some 951782400)].
-Proof. vm_compute. reflexivity. Qed.
+     (list_of_string "Tue, 29 Feb 2000 00:00:00.000000000 UTC", Some 951782400)]
+  /\ imf_write 784111777 = list_of_string "Sun, 06 Nov 1994 08:49:37 GMT" /\ date_read (imf_write 784111777) = Some 784111777.
+Proof. vm_compute. repeat split; reflexivity. Qed.
 
 (* non-vacuity of the typed lookup: a request with Host twice under two capitalisations, through the executable parser *)
 Require Import ParserInst.
